@@ -19,11 +19,11 @@ MODULES = SPEC_MODULES + ['Model.Server', 'Model.ServerRun', 'Model.ServerExec']
 STATE = {'model_ok': True}
 
 
-def prepare(ctx):
+def prepare(ctx, extra_gen=()):
     """translate, build the Spec evaluator and the model, prove, build the harness. Returns False when
     nothing can be run. When only the model (or a generated table it imports) no longer compiles,
     the implementation is still compared with the Spec."""
-    ctx.translate(['Consts.v', 'AuthzTable.v', 'ServerFlow.v'])
+    ctx.translate(['Consts.v', 'AuthzTable.v', 'ServerFlow.v'] + list(extra_gen))
     spec_ok = ctx.build_models(SPEC_MODULES)
     STATE['model_ok'] = ctx.build_models(MODULES) if spec_ok else False
     ctx.prove()
@@ -925,3 +925,233 @@ def run_rtu_scenarios(ctx, scs):
         res = ctx.coq_eval(SPEC_MODULES, 'run_spec_task', [rtu_scenario_coq(s) for s in scs], case_type='tcase', per_shard=50)
         both = [(None, x) for x in res]
     return impl, norm, both
+
+
+# ------------------------------------------------------------------------------------------ byte-level delivery and re-opened ports
+# A stream case is (case, script): `case` as everywhere (its frames are what the framing rule cuts out of the
+# stream), `script` the way the concatenated ADUs reach the server: hex chunks that ignore frame boundaries
+# (many pipelined frames per chunk, totals above 260 and 520 bytes so that the 260-byte receive buffer fills
+# with a partial frame at its end and is compacted, chunk edges at 259/260/261, cuts inside a frame) with
+# ChangeDecoding commands between chunks (the waiting next_frame is dropped and re-entered).
+def gen_stream_case(r, link, auth=None):
+    fam = r.choice(['pipeline', 'pipeline', 'edges', 'halves', 'halves', 'random'])
+    if fam in ('pipeline', 'edges'):
+        n = r.choice([24, 30, 45, 60])
+        base = gen_session(r, link, nframes=n, auth=auth, big_ok=False, raw=0.03)
+        # mostly short requests so that many fit into one buffer fill; a few long ones shift the alignment
+        frames = []
+        for f in base[3]:
+            if len(f[2]) > 40 and r.random() < 0.8:
+                f = (f[0], f[1], bytes([6] + be(r.randrange(0, 8)) + be(r.randrange(65536))))
+            frames.append(f)
+        case = (base[0], base[1], base[2], tuple(frames))
+    else:
+        case = gen_session(r, link, nframes=r.choice([1, 2, 3, 5, 8]), auth=auth, big_ok=False, raw=0.05)
+    stream = b''.join(adu(link, f) for f in case[3])
+    cuts = []
+    if fam == 'pipeline':
+        k = r.choice([0, 1, 2])
+        cuts = sorted(set(r.randrange(1, max(2, len(stream))) for _ in range(k)))
+    elif fam == 'edges':
+        e = r.choice([259, 260, 261, 519, 520, 521])
+        cuts = [c for c in (e, e + r.choice([1, 7, 260, 261])) if c < len(stream)]
+    elif fam == 'halves':
+        # a cut strictly inside every other frame or so
+        pos = 0
+        for f in case[3]:
+            ln = len(adu(link, f))
+            if ln >= 2 and r.random() < 0.7:
+                cuts.append(pos + r.randrange(1, ln))
+            pos += ln
+    else:
+        cuts = sorted(set(r.randrange(1, max(2, len(stream))) for _ in range(r.choice([1, 3, 6, 12]))))
+    cuts = [c for c in sorted(set(cuts)) if 0 < c < len(stream)]
+    chunks = [stream[a:b] for a, b in zip([0] + cuts, cuts + [len(stream)])] if stream else []
+    script = []
+    for i, c in enumerate(chunks):
+        if i > 0 and (fam == 'halves' and r.random() < 0.7 or r.random() < 0.15):
+            script.append(r.choice(['@max', '@min']))
+        script.append(c.hex().upper())
+    return (case, tuple(script))
+
+
+# A re-open case: ONE RTU server session run over consecutive ports (RtuServerTask): groups of frames, a group
+# may end with a frame whose CRC is wrong (the port session ends with BadFrame); then the port is re-opened.
+# Frames go to served AND unserved unit ids; what the framing rule delivers are the frames with a good CRC.
+def gen_reopen_case(r):
+    units = gen_units(r, r.choice([1, 2, 2, 3]))
+    ids = [u[0] for u in units if u[0] != 0] or [1]
+    others = [x for x in (1, 2, 3, 9, 17, 100, 247) if x not in [u[0] for u in units]]
+
+    def frame():
+        dest = r.choice(ids) if r.random() < 0.55 else r.choice(others + [0])
+        k = r.random()
+        if k < 0.45:
+            pdu = bytes([r.choice([1, 2, 3, 4])] + be(r.randrange(0, 50)) + be(r.choice([1, 2, 5, 9])))
+        elif k < 0.75:
+            pdu = bytes([6] + be(r.randrange(0, 50)) + be(r.randrange(65536)))
+        elif k < 0.85:
+            pdu = bytes([5] + be(r.randrange(0, 50)) + be(r.choice([0xFF00, 0])))
+        else:
+            q = r.choice([1, 2, 3])
+            pdu = bytes([16] + be(r.randrange(0, 50)) + be(q) + [2 * q] + rnd_bytes(r, 2 * q))
+        return (None, dest, pdu)
+    frames, script = [], []
+    ngroups = r.choice([2, 2, 3, 4])
+    for g in range(ngroups):
+        for _ in range(r.choice([0, 1, 2, 3])):
+            f = frame()
+            frames.append(f)
+            script.append(adu('rtu', f).hex().upper())
+        if g + 1 < ngroups:
+            if r.random() < 0.8:
+                f = frame()
+                a = bytearray(adu('rtu', f))
+                a[-1] ^= r.choice([1, 0x80, 0xFF])
+                if r.random() < 0.5:
+                    a[-2] ^= r.choice([1, 0x55])
+                script.append(bytes(a).hex().upper())        # wrong CRC: ends this port session, delivers nothing
+            script.append('@reopen')
+    return (('rtu', units, None, tuple(frames)), tuple(script))
+
+
+def run_streams(ctx, scases):
+    """implementation on the scripts; model and Spec on the frames. Returns per case
+    (impl line, flat impl reply bytes, impl log, impl end, flat spec reply bytes, spec log, flat model reply bytes, model log)"""
+    lines = [to_line((c[0], c[1], c[2], ())).rsplit('|', 1)[0] + '|' + (','.join(s) or '-') for c, s in scases]
+    impl = ctx.harness('server', lines, shards=16, timeout=600)
+    both = run_coq(ctx, [c for c, _ in scases])
+    out = []
+    for ln, i, b in zip(lines, impl, both):
+        rep, log, end = split3(i)
+        flat = ''.join(x for x in rep if x != '-')
+        srep, slog, _ = split3(b[1])
+        sflat = ''.join(x for x in srep if x != '-')
+        if b[0] is not None:
+            mrep, mlog, _ = split3(b[0])
+            mflat = ''.join(x for x in mrep if x != '-')
+        else:
+            mflat, mlog = sflat, slog
+        out.append({'line': ln, 'impl': i, 'flat': flat, 'log': log, 'end': end, 'sflat': sflat, 'slog': slog, 'mflat': mflat, 'mlog': mlog, 'spec': b[1], 'model': b[0]})
+    return out
+
+
+def stream_pass(ctx, scases, what, name, key, reopen=False):
+    """what: 'replies' (reply byte stream + how the session ended), 'calls' (handler call log), 'all'"""
+    res = run_streams(ctx, scases)
+    bad = []
+    for k, x in enumerate(res):
+        ok_end = True if reopen else x['end'] == 'open'
+        calls_i, calls_s, calls_m = handler_calls(x['log']), handler_calls(x['slog']), handler_calls(x['mlog'])
+        if what == 'replies':
+            d_spec = x['flat'] != x['sflat'] or not ok_end
+            d_model = x['flat'] != x['mflat']
+        elif what == 'calls':
+            d_spec = calls_i != calls_s or not ok_end
+            d_model = calls_i != calls_m
+        else:
+            d_spec = x['flat'] != x['sflat'] or x['log'] != x['slog'] or not ok_end
+            d_model = x['flat'] != x['mflat'] or x['log'] != x['mlog']
+        if d_spec or d_model:
+            bad.append((k, d_spec))
+    ctx.oblige(name, not bad, f'{len(bad)} of {len(scases)} differ')
+    for k, d_spec in bad[:2]:
+        x = res[k]
+        ctx.violation(key, f'{name}: the server, fed the byte stream in these chunks, differs from the reference server applied to the frames of the stream: {x["line"][:260]}',
+                      {'stream_cases': [[case_to_json(scases[k][0]), list(scases[k][1])]], 'reopen': reopen, 'name': name, 'stream_key': key,
+                       'harness_line': x['line'], 'impl': x['impl'], 'spec': x['spec'], 'model': x['model'], 'observed': what}, no_failing_input=not d_spec)
+    return res
+
+
+def replay_streams(ctx):
+    """bin/check <prop> --replay <file> for a byte-stream / re-open violation"""
+    rp = ctx.replay
+    scases = [(case_from_json(c), tuple(s)) for c, s in rp['stream_cases']]
+    stream_pass(ctx, scases, rp.get('observed', 'all'), rp.get('name', 'correspondence:byte-stream'), rp.get('stream_key', 'server.byte-stream'), reopen=bool(rp.get('reopen')))
+    ctx.coverage.update({'evaluations': len(scases), 'distinct_nontrivial': len(scases), 'rule': 'replay of a byte-stream case', 'samples': [], 'input_classes': {}})
+
+
+# ------------------------------------------------------------------------------------------ TLS + authorization through the C ABI and the Rust API
+# `verif-harness ffi_authz seq <server> <policy> <unit> <role>:<op>:<start>:<n>,...`: ONE TLS server with an authorization handler
+# (created through the C ABI or the Rust API), one client session per entry, each with the certificate of its role
+# (/verif/certs/ca2: operator, viewer, roleless = no role extension, tworoles = two role extensions).
+FFI_LABEL = {'rc': 'read_coils', 'rd': 'read_discrete_inputs', 'rh': 'read_holding_registers', 'ri': 'read_input_registers',
+             'wc': 'write_single_coil', 'wr': 'write_single_register', 'wmc': 'write_multiple_coils', 'wmr': 'write_multiple_registers'}
+
+
+def authz_policy(policy, label, role):
+    if policy == 'allow':
+        return True
+    if policy == 'deny':
+        return False
+    if policy == 'coils':
+        return 'coil' in label
+    return role == 'operator' or (role == 'viewer' and label.startswith('read_'))     # byrole
+
+
+def gen_authz_sequences(r, quick=True):
+    seqs = []
+    ops = list(FFI_LABEL)
+    for server in ('ffi', 'rust'):
+        # every request kind under a policy that separates kinds, and under one that separates roles
+        seqs.append((server, 'coils', 1, tuple(('operator', op, 1, 2) for op in ops)))
+        seqs.append((server, 'byrole', 1, tuple((role, op, 1, 2) for op in ('wmr', 'rh', 'wc') for role in ('operator', 'viewer'))))
+        # an earlier allowed session with another role must not carry over
+        seqs.append((server, 'byrole', 1, (('operator', 'wc', 1, 1), ('viewer', 'wmr', 1, 2), ('viewer', 'rh', 1, 2), ('operator', 'wr', 2, 9))))
+        seqs.append((server, 'byrole', 1, (('viewer', 'rc', 0, 3), ('operator', 'wmc', 1, 2), ('viewer', 'wc', 1, 1))))
+        # a certificate without a usable role gets no session at all, whatever the policy
+        seqs.append((server, 'deny', 1, (('roleless', 'wr', 1, 7), ('operator', 'wr', 1, 7))))
+        seqs.append((server, 'allow', 1, (('tworoles', 'wmr', 1, 2), ('roleless', 'rh', 1, 1), ('viewer', 'rh', 1, 1))))
+        for _ in range(2 if quick else 12):
+            pol = r.choice(['coils', 'byrole', 'byrole', 'deny', 'allow'])
+            k = r.choice([2, 3, 5])
+            seqs.append((server, pol, r.choice([1, 7, 200]), tuple((r.choice(['operator', 'viewer', 'viewer', 'roleless']), r.choice(ops), r.randrange(0, 8), r.choice([1, 2])) for _ in range(k))))
+    return seqs
+
+
+def authz_line(sq):
+    server, pol, unit, sess = sq
+    return f'seq {server} {pol} {unit} ' + ','.join(f'{ro}:{op}:{st}:{n}' for ro, op, st, n in sess)
+
+
+def run_authz_sequences(ctx, seqs):
+    import os
+    out = ctx.harness('ffi_authz', [authz_line(s) for s in seqs], args=[vlib.REPO, os.path.join(vlib.ROOT, 'certs')], shards=4, timeout=900)
+    res = []
+    for sq, line in zip(seqs, out):
+        server, pol, unit, sess = sq
+        got = line.split(';')
+        per = []
+        for k, (role, op, st, n) in enumerate(sess):
+            g = got[k] if k < len(got) else line
+            label = FFI_LABEL[op]
+            usable = role in ('operator', 'viewer')
+            client = g.split(' ')[0][len('client='):] if g.startswith('client=') else g
+            count = g.rsplit(' x', 1)[1] if ' x' in g else '?'
+            auth = g.split(' auth=', 1)[1].rsplit(' x', 1)[0] if ' auth=' in g else '?'
+            if not usable:
+                want = {'served': False, 'queries': '0'}
+                ok_effect = not client.startswith('OK')
+                ok_full = ok_effect and count == '0'
+            else:
+                allowed = authz_policy(pol, label, role)
+                arg = f'{st}' if op in ('wc', 'wr') else f'{st},{max(n, 1)}'
+                want_auth = f'{label}:{unit}:{arg}:{role}'
+                want = {'served': True, 'allowed': allowed, 'query': want_auth}
+                ok_effect = client.startswith('OK') if allowed else client == 'EX:IllegalFunction'
+                ok_full = ok_effect and auth == want_auth and count == '1'
+            per.append({'session': k + 1, 'role': role, 'op': op, 'got': g, 'want': want, 'ok_effect': ok_effect, 'ok_full': ok_full})
+        res.append(per)
+    return out, res
+
+
+def replay_authz_sequences(ctx, effect_only):
+    """bin/check C02|C08 --replay <file> for an authorization-sequence violation"""
+    seqs = [(a, b, c, tuple(tuple(x) for x in d)) for a, b, c, d in ctx.replay['authz_sequences']]
+    out, res = run_authz_sequences(ctx, seqs)
+    bad = [(sq, o, p) for sq, o, per in zip(seqs, out, res) for p in per if not (p['ok_effect'] if effect_only else p['ok_full'])]
+    ctx.oblige('tls-authorization-sequences:replay', not bad, str([x[2] for x in bad[:1]])[:300])
+    for sq, o, p in bad[:1]:
+        ctx.violation(ctx.replay.get('key', 'authorization.tls.replay'), f'session #{p["session"]} got `{p["got"]}`, required {p["want"]}',
+                      {'authz_sequences': ctx.replay['authz_sequences'], 'harness_line': 'ffi_authz: ' + authz_line(sq), 'impl': o})
+    ctx.coverage.update({'evaluations': len(seqs), 'distinct_nontrivial': len(seqs), 'rule': 'replay of an authorization sequence', 'samples': [], 'input_classes': {}})
